@@ -6,11 +6,14 @@ package c07
 import (
 	"context"
 	"fmt"
+	"reflect"
 	"runtime"
 	"sync"
 	"sync/atomic"
 	"testing"
 	"time"
+
+	ebu "github.com/jilio/ebu"
 
 	"verif/harness/internal/conc"
 	"verif/harness/internal/evt"
@@ -46,8 +49,9 @@ func TestC07(t *testing.T) {
 		dog.Tick()
 		runtime.GOMAXPROCS(procs[i%len(procs)])
 		drivers := conc.SameShardTypes(all, 1, rng.Uint64())
-		w := conc.NewWorld(drivers, rng.Uint64(), true)
+		w := conc.NewWorld(drivers, rng.Uint64(), true, ebu.WithPanicHandler(func(any, reflect.Type, any) {}))
 		w.NoisePct = 30 + rng.IntN(60)
+		panicky := i%4 == 1
 		P := 1 + rng.IntN(8)
 		E := 5 + rng.IntN(25)
 		if rng.IntN(20) == 0 {
@@ -70,10 +74,16 @@ func TestC07(t *testing.T) {
 			} else {
 				r.Class, pc = pc, pc+1
 			}
-			r.Body = func(w *conc.World, _ *conc.Reg, _ context.Context, _ uint64) {
+			r.Body = func(w *conc.World, _ *conc.Reg, _ context.Context, eid uint64) {
 				h.canary++
 				w.Noise()
 				h.canary++
+				if panicky && eid%9 == 4 {
+					// a panicking invocation must not keep the handler locked or out of turn
+					w.Rec(conc.Ev{G: -1, K: "h.exit", Reg: r.ID, T: r.T, EID: eid})
+					r.EndBody()
+					panic("c07: handler panic")
+				}
 			}
 			h.r = r
 			hl = append(hl, h)
